@@ -37,6 +37,9 @@ SmallReplies ==
   \cup { AckOperation(Other, "ReceiveConfig"), NoReply, BusErr }
 
 Replies == IF Alphabet = "full" THEN FullReplies ELSE SmallReplies
+\* the reply to the first message of a call always ranges over the full alphabet (an operation's entry decision is a match
+\* over many states: each of them is a case of its own); the small alphabet only thins the later steps
+RepliesAt(lg) == IF lg = <<>> THEN FullReplies ELSE Replies
 
 VARIABLES c, log, mon
 vars == <<c, log, mon>>
@@ -51,7 +54,7 @@ KeepsPolling(r) == r.k = "ReportState" /\ r.a = Me /\ r.s \in {"PageLoadInProgre
 
 Next ==
     /\ Running(c)
-    /\ \E r \in Replies :
+    /\ \E r \in RepliesAt(log) :
         /\ (c.pc = "sw_query" /\ Queries + 1 >= MaxQueries => ~KeepsPolling(r))
         /\ c' = Recv(c, r)
         /\ log' = Append(log, [m |-> CMsg(c), r |-> r])
